@@ -361,12 +361,14 @@ static void run_kfself(int isc, int k, int reserve, Ent* es, size_t n) {
   if (pid == 0) {
     close(pf[0]);
     int devnull = open("/dev/null", O_WRONLY); if (devnull >= 0) dup2(devnull, 2);   /* the sanitizer report is expected */
-    struct itimerval tv = { {0, 0}, {0, 400000} }; setitimer(ITIMER_REAL, &tv, NULL);  /* List_Concat(l, l) allocates for ever */
+    /* List_Concat(l, l) allocates for ever: stop it after 0.3 s of its own CPU time (a wall-clock limit would also
+       hit a child that is merely waiting for the sanitizer's symbolizer on a loaded machine); wall-clock backstop 30 s */
+    struct itimerval tv = { {0, 0}, {0, 300000} }; setitimer(ITIMER_PROF, &tv, NULL); alarm(30);
     Slot s; memset(&s, 0, sizeof s); s.kind = k;
     s.obj = new_container(k, es, n);
     if (reserve && n > 0) resize(s.obj, 2 * n);
     var exc; if (isc) V_TRY(exc, concat(s.obj, s.obj)); else V_TRY(exc, assign(s.obj, s.obj));
-    tv.it_value.tv_usec = 0; setitimer(ITIMER_REAL, &tv, NULL);
+    tv.it_value.tv_usec = 0; setitimer(ITIMER_PROF, &tv, NULL); alarm(0);
     char b[4096]; size_t o = 0;
     if (exc) o = snprintf(b, sizeof b, "err=%s", v_exc_name(exc));
     else { read_rep(&s); o = fmt_dump(b, sizeof b, &s); }
@@ -378,7 +380,7 @@ static void run_kfself(int isc, int k, int reserve, Ent* es, size_t n) {
   int st; waitpid(pid, &st, 0);
   const char* opn = isc ? "concat" : "assign"; const char* kn = reserve ? "AR" : kind_name[k];
   const char* sig = isc ? "KF-C04-self-concat" : "KF-C04-self-assign";
-  if (WIFSIGNALED(st) && WTERMSIG(st) == SIGALRM) {
+  if (WIFSIGNALED(st) && (WTERMSIG(st) == SIGPROF || WTERMSIG(st) == SIGALRM)) {
     O("kfself %s %s diverges", opn, kn);
     X("sig=%s line=%zu what=%s(x, x) on a %s of %zu elements does not terminate", sig, cur_line, opn, kn, n);
   } else if (!WIFEXITED(st) || WEXITSTATUS(st) != 0) {
